@@ -339,6 +339,9 @@ func (m *Machine) unop(fr *Frame, instr *ssa.UnOp, x Value) Value {
 			return -x
 		}
 	case token.MUL:
+		if se, ok := x.(*SymElem); ok {
+			return m.loadSymElem(se)
+		}
 		p := x.(*Value)
 		if p == nil {
 			m.runtimePanic(fr, "invalid memory address or nil pointer dereference (load)")
@@ -945,4 +948,55 @@ func (m *Machine) sliceFromElemPtr(fr *Frame, p *Value, n int) []Value {
 	}
 	m.unsupported("unsafe slice from untracked element pointer at %s", fr.where())
 	return nil
+}
+
+// SymElem is the address of table[idx] for a symbolic, in-bounds idx into a table of constant scalars.
+type SymElem struct {
+	elems []Value
+	idx   *Term
+}
+
+func constScalarTable(a ArrayV) bool {
+	for _, e := range a {
+		t, ok := e.(*Term)
+		if !ok || !t.IsConst() {
+			return false
+		}
+	}
+	return len(a) > 0
+}
+
+// loadSymElem builds ite(idx in S1, v1, ite(idx in S2, v2, ... default)) grouping the indices by table value.
+func (m *Machine) loadSymElem(se *SymElem) Value {
+	tf := m.tf
+	groups := map[uint64][]int{}
+	var order []uint64
+	var w uint8
+	for i, e := range se.elems {
+		t := e.(*Term)
+		w = t.W
+		if _, ok := groups[t.Val]; !ok {
+			order = append(order, t.Val)
+		}
+		groups[t.Val] = append(groups[t.Val], i)
+	}
+	// the most frequent value is the default
+	def := order[0]
+	for _, v := range order {
+		if len(groups[v]) > len(groups[def]) {
+			def = v
+		}
+	}
+	res := tf.Const(w, def)
+	for _, v := range order {
+		if v == def {
+			continue
+		}
+		cond := tf.False
+		for _, i := range groups[v] {
+			cond = tf.Or(cond, tf.Eq(se.idx, tf.Const(64, uint64(i))))
+		}
+		res = tf.Ite(cond, tf.Const(w, v), res)
+	}
+	return res
 }
